@@ -43,11 +43,14 @@ type Case struct {
 	Holds     []sched.Hold `json:"holds,omitempty"`
 	Perturb   int          `json:"perturb"`
 	SchedSeed uint64       `json:"sched_seed"`
-	Limit     int          `json:"limit,omitempty"`     // > 0: callers run under a concurrency limiter of this size
-	Funcs     int          `json:"funcs,omitempty"`     // 2: a second Func on the same batch context, same shard values
-	MaxSize2  int          `json:"max_size2,omitempty"` // its MaxSize
-	FuncOf    []int        `json:"func_of,omitempty"`   // Func called by caller i (cycled)
-	Origin    string       `json:"origin,omitempty"`
+	Limit     int          `json:"limit,omitempty"`      // > 0: callers run under a concurrency limiter of this size
+	Funcs     int          `json:"funcs,omitempty"`      // 2: a second Func on the same batch context, same shard values
+	MaxSize2  int          `json:"max_size2,omitempty"`  // its MaxSize
+	FuncOf    []int        `json:"func_of,omitempty"`    // Func called by caller i (cycled)
+	ShardVals []int        `json:"shard_vals,omitempty"` // non-empty: Shard(arg) = shardCatalogue[ShardVals[arg % len]], values of
+	// different Go types that print alike; the model's shard number is the catalogue index (distinct entries are
+	// distinct Go values)
+	Origin string `json:"origin,omitempty"`
 }
 
 func fOf(arg int) int { return arg*31 + 7 }
@@ -94,11 +97,31 @@ func (c *Case) maxSizeOf(fid int) int {
 	return c.MaxSize
 }
 
+// shard values are compared by Go equality (they are map keys in batch.go), never by their printed form
+type tenantID int
+type deviceID int
+type pairKey struct{ A, B string }
+
+var shardCatalogue = []interface{}{tenantID(7), deviceID(7), 7, "7", pairKey{"a b", "c"}, pairKey{"a", "b c"}, int64(7), "a b c"}
+
 func (c *Case) shardOf(arg int) int {
-	if c.NilShard || c.Shards <= 1 {
+	if c.NilShard {
+		return 0
+	}
+	if len(c.ShardVals) > 0 {
+		return c.ShardVals[arg%len(c.ShardVals)] % len(shardCatalogue)
+	}
+	if c.Shards <= 1 {
 		return 0
 	}
 	return arg % c.Shards
+}
+
+func (c *Case) shardVal(arg int) interface{} {
+	if len(c.ShardVals) > 0 {
+		return shardCatalogue[c.shardOf(arg)]
+	}
+	return c.shardOf(arg)
 }
 
 func errKind(err error) string {
@@ -159,7 +182,7 @@ func runCase(c *Case) (*exec, bool) {
 			MaxDuration:  time.Duration(c.MaxDurUs) * time.Microsecond,
 		}
 		if !c.NilShard {
-			f.Shard = func(arg interface{}) interface{} { return c.shardOf(arg.(int)) }
+			f.Shard = func(arg interface{}) interface{} { return c.shardVal(arg.(int)) }
 		}
 		f.Many = func(ctx context.Context, args []interface{}) ([]interface{}, error) {
 			k := int(atomic.AddInt32(&e.nMany, 1)) - 1
@@ -619,6 +642,19 @@ func genCase(r *vh.Rng) *Case {
 	if r.Chance(15) {
 		c.Limit = 1 + r.Intn(4)
 	}
+	if r.Chance(25) && !c.NilShard {
+		// shard values of different Go types (and structs) that print alike: they are different map keys
+		n := 2 + r.Intn(3)
+		start := []int{0, 0, 2, 4, 4}[r.Intn(5)]
+		for k := 0; k < n; k++ {
+			c.ShardVals = append(c.ShardVals, (start+k)%len(shardCatalogue))
+		}
+		if r.Chance(30) {
+			for k := range c.ShardVals {
+				c.ShardVals[k] = r.Intn(len(shardCatalogue))
+			}
+		}
+	}
 	if r.Chance(30) {
 		// a second Func on the same batch context; both map arguments to the same shard values
 		c.Funcs, c.MaxSize2 = 2, r.Intn(6)
@@ -707,7 +743,7 @@ func variant(r *vh.Rng, seed *Case) *Case {
 	c.Origin = "search"
 	c.SchedSeed = r.U64() >> 1
 	for k := 1 + r.Intn(3); k > 0; k-- {
-		switch r.Intn(9) {
+		switch r.Intn(10) {
 		case 0: // another hold point / count
 			if len(c.Holds) > 0 {
 				h := &c.Holds[r.Intn(len(c.Holds))]
@@ -770,6 +806,10 @@ func variant(r *vh.Rng, seed *Case) *Case {
 			c.Perturb = r.Intn(60)
 			if len(c.Outcomes) > 1 {
 				c.Outcomes = append(c.Outcomes[1:], c.Outcomes[0])
+			}
+		case 8: // shard values that print alike
+			if !c.NilShard {
+				c.ShardVals = []int{r.Intn(len(shardCatalogue)), r.Intn(len(shardCatalogue)), r.Intn(len(shardCatalogue))}
 			}
 		default: // timers
 			c.WaitUs = []int{20, 100, 500, 2000}[r.Intn(4)]
@@ -881,6 +921,9 @@ func main() {
 		}
 		run.Hist(fmt.Sprintf("maxsize:%d", c.MaxSize))
 		run.Hist(fmt.Sprintf("funcs:%d", maxi(1, c.Funcs)))
+		if len(c.ShardVals) > 0 {
+			run.Hist("shards:typed-values-that-print-alike")
+		}
 		run.Hist(fmt.Sprintf("callers:%d0s", c.Callers/10))
 		run.Hist(fmt.Sprintf("groups:%d", mini(st.groups, 12)))
 		run.Hist(fmt.Sprintf("largest-group:%d", mini(st.maxGroup, 12)))
